@@ -46,6 +46,7 @@ func checkC16(ix *index, add addFn) {
 		}
 		// was Connect started on it?
 		connectCalled := false
+		firstActivityT := int64(0)
 		for i := range ix.tr {
 			if i >= ix.end() {
 				break
@@ -53,6 +54,7 @@ func checkC16(ix *index, add addFn) {
 			r := &ix.tr[i]
 			if r.Conn == k && (r.Kind == "write" || r.Kind == "state") {
 				connectCalled = true
+				firstActivityT = r.T
 				break
 			}
 		}
@@ -124,7 +126,9 @@ func checkC16(ix *index, add addFn) {
 		if disc < 0 && end >= 0 && ix.complete {
 			if nClosed != 1 {
 				add("closed", fmt.Sprintf("conn %d ended (%s) without Disconnect: Closed reported %d times", k, c.endKind, nClosed), nil)
-			} else if ix.tr[closedAt].T != ix.tr[end].T && len(sc.Cfg.Yields) == 0 {
+			} else if ix.tr[closedAt].T != ix.tr[end].T && len(sc.Cfg.Yields) == 0 && !(ix.tr[end].T < firstActivityT && ix.tr[closedAt].T == firstActivityT) {
+				// (a transport that died before Connect was called on it is reported when
+				// Connect is called)
 				add("closed", fmt.Sprintf("conn %d ended at t=%dns, Closed reported at t=%dns", k, ix.tr[end].T, ix.tr[closedAt].T), nil)
 			}
 		}
